@@ -506,6 +506,43 @@ func runC07(c *Ctx) error {
 			c.count(tag, true, "ending=close-race")
 		}
 	}
+	// a connection that is already closed when its read loop starts (the application wrote a greeting that failed, or
+	// closed it, between the upgrade and ReadLoop): the lifecycle is still OnOpen once and first, then OnClose once
+	for _, server := range []bool{true, false} {
+		for _, how := range []string{"WriteClose", "NetConn().Close() + failed write"} {
+			h := &recHandler{}
+			conn, tap, err := connSpec{Server: server}.open(h)
+			if err != nil {
+				return err
+			}
+			if how == "WriteClose" {
+				_ = conn.WriteClose(1000, nil)
+			} else {
+				_ = conn.NetConn().Close()
+				_ = conn.WriteMessage(gws.OpcodeText, []byte("greeting"))
+			}
+			tap.setEOF()
+			tag := fmt.Sprintf("closed before ReadLoop role=%s by=%s", roleName(server), how)
+			if !runWithTimeout(10*time.Second, conn.ReadLoop) {
+				c.oracleFail("ReadLoop did not return ["+tag+"]", "readloop-hang", map[string]any{"tag": tag})
+				continue
+			}
+			var kinds []string
+			var cerr error
+			for _, e := range h.events() {
+				kinds = append(kinds, e.Kind)
+				if e.Kind == "close" {
+					cerr = e.Err
+				}
+			}
+			if len(kinds) != 2 || kinds[0] != "open" || kinds[1] != "close" {
+				c.oracleFail(fmt.Sprintf("callbacks %v, want [open close] [%s]", kinds, tag), "lifecycle-order", map[string]any{"tag": tag, "callbacks": kinds})
+			} else if cerr == nil {
+				c.oracleFail("OnClose received a nil error ["+tag+"]", "close-nil-error", map[string]any{"tag": tag})
+			}
+			c.count(tag, true, "ending=closed-before-readloop")
+		}
+	}
 	// goroutines started by parallel handling must all have finished
 	var wg sync.WaitGroup
 	wg.Wait()
